@@ -210,7 +210,9 @@ def run(sc, tier, replay):
     log("refused lines: %d" % len(rej))
 
     # negative controls: a tampered frame, two frames swapped, a frame under another id
-    base = next((x for x in runs if len([e for e in x["events"] if e["ev"] == "Frame" and e["hasData"]]) >= 2), None)
+    # (a run of plain data events only: the data of a frame that answers an event with errors is not judged)
+    base = next((x for x in runs if len([e for e in x["events"] if e["ev"] == "Frame" and e["hasData"]]) >= 2
+                 and all(e["kind"] == "data" for e in x["events"] if e["ev"] == "Emit")), None)
     if base is None:
         raise vlib.MachineryError("no run usable as negative control")
     nctrl = 0
